@@ -371,6 +371,9 @@ func (p *sp) primary() Val {
 		p.expect("(")
 		a := p.iff()
 		p.expect(")")
+		if a.Obj != "" {
+			return intV(a.Obj)
+		}
 		if a.Ref == "" {
 			return intV(a.T)
 		}
